@@ -372,10 +372,12 @@ def first_mismatches(a, b, limit=50):
 # ---------------------------------------------------------------- findings, replay, evidence
 
 def load_known():
-    p = os.path.join(VERIF, "known_findings.json")
-    if not os.path.exists(p):
-        return []
-    return json.load(open(p))["findings"]
+    """Known findings: one committed file per property, /verif/known_findings.d/Cnn.json
+    ({"findings":[{property,id,status,commit,signature,what}...]}); never written at run time."""
+    res = []
+    for p in sorted(glob.glob(os.path.join(VERIF, "known_findings.d", "*.json"))):
+        res += json.load(open(p))["findings"]
+    return res
 
 
 def known_for(prop, status="known"):
